@@ -353,7 +353,7 @@ class ModelsWorld(World):
                     m = {"k": "autovalues"}
             elif x < 0.35:
                 m = {"k": "assign", "values": self._draw_params(val, r.tname, nv, subset=True, rng=rng)}
-                if rng.random() < 0.12 and TEMPLATES[r.tname]["shocks"]:
+                if rng.random() < (0.3 if nv > 1 else 0.12) and TEMPLATES[r.tname]["shocks"]:
                     # assigning a level to a shock is legal; the assignment rules reset it to zero in every variant
                     m["values"][rng.choice(TEMPLATES[r.tname]["shocks"])] = [1.0] * nv if nv > 1 and rng.random() < 0.5 else 1.0
                 if rng.random() < 0.15:
@@ -415,6 +415,10 @@ class ModelsWorld(World):
             else:
                 m = {"k": "describe", "s": rng.choice(["", "var A", "renamed"])}
         step = {"op": "mutate", "args": {"h": h, "m": m}}
+        if cls == "sim" and nv > 1 and m["k"] == "assign" and any(isinstance(v, list) for v in m["values"].values()) and rng.random() < 0.4:
+            # the variants have just been given different values: the operations that work variant by variant come next
+            # (the split check after each of them compares every variant with a single-variant model of its own)
+            self._pending = [{"op": "mutate", "args": {"h": h, "m": {"k": "steady"}}}, {"op": "mutate", "args": {"h": h, "m": {"k": "solve"}}}]
         if nv > 1 and m["k"] in ("assign", "assign_variant", "alter") and rng.random() < 0.3:
             # right after the variants were given different values: the pieces of an iteration, kept beyond the loop
             step["args"]["iterate_after"] = True
